@@ -87,6 +87,12 @@ def run_history(case, ctx, sdir):
         warnings.simplefilter("ignore")
         doc = gen.build_doc(spec)
         c08.apply_muts(doc, case["muts"])
+        if case.get("linker", 0) % 2 == 0:
+            # a repository on the Document (no fetch: not a URL of an existing resource) that its Sections inherit
+            try:
+                doc._repository = "file:///nonexistent/verif_terms.xml"
+            except Exception:
+                pass
         if case.get("linker"):
             # a Section whose link is stored but not resolved (as after loading a file): validating must not resolve it
             tops = [s_ for s_ in doc.sections if "/" not in s_.name and s_.name not in (".", "..")]
@@ -152,10 +158,12 @@ def run_history(case, ctx, sdir):
                     rules = {"odML": [ov.section_unique_ids, ov.document_unique_ids, ov.section_unique_name_type],
                              "section": [ov.section_unique_ids, ov.property_unique_ids, ov.property_unique_names,
                                          ov.section_type_must_be_defined, ov.object_name_readable,
-                                         ov.section_properties_cardinality, ov.section_sections_cardinality],
+                                         ov.section_properties_cardinality, ov.section_sections_cardinality,
+                                         ov.section_repository_present],
                              "property": [ov.property_dependency_check, ov.property_values_check,
-                                          ov.property_values_cardinality, ov.object_required_attributes]}
-                    pick = step[2] % 7
+                                          ov.property_values_cardinality, ov.object_required_attributes,
+                                          ov.property_terminology_check]}
+                    pick = step[2] % 8
                     results = []
                     for rep in range(3):
                         lv = Validation(tgt, validate=False, reset=True)
